@@ -193,6 +193,28 @@ def stage(state, name, program, st):
         out["kotlin_visit"] = vis
     except Exception as e:  # noqa: BLE001
         out["kotlin_visit_error"] = type(e).__name__ + ": " + str(e)[:200]
+    # Scala: the same visits from hand-set states (+ the text after an explicit `_reset_state()`, which no code calls)
+    try:
+        from src.translators.scala import ScalaTranslator
+        vis = []
+        for (ident, unit, lam, cast) in ((0, False, False, False), (4, True, False, True), (2, False, True, False)):
+            tr = ScalaTranslator("src.pkg", {})
+            tr.ident, tr.is_unit, tr.is_lambda, tr._cast_integers = ident, unit, lam, cast
+            tr.context = program.context
+            for d in program.declarations:
+                tr.visit(d)
+            vis.append({"init": {"ident": ident, "is_unit": unit, "is_lambda": lam, "_cast_integers": cast},
+                        "texts": list(tr._children_res),
+                        "state": {"ident": tr.ident, "is_unit": tr.is_unit, "is_lambda": tr.is_lambda,
+                                  "_cast_integers": tr._cast_integers, "stack_len": len(tr._nodes_stack)}})
+        out["scala_visit"] = vis
+        tr = ScalaTranslator("src.pkg", {})
+        utils.translate_program(tr, pl[0])
+        tr.ident, tr.is_unit, tr._cast_integers = 6, True, True
+        tr._reset_state()
+        out["scala_after_reset"] = utils.translate_program(tr, program)
+    except Exception as e:  # noqa: BLE001
+        out["scala_visit_error"] = type(e).__name__ + ": " + str(e)[:200]
     # tu.is_sam on every class declaration (theorem is_sam_never; the translator asks exactly this)
     try:
         from src.ir import type_utils as tu, ast as _ast
